@@ -35,10 +35,12 @@ IsPrefixS(s, t) == Len(s) <= Len(t) /\ \A i \in 1..Len(s) : s[i] = t[i]
 SpawnKinds == {"apply", "map", "starmap", "doublestarmap", "start"}
 MapKinds   == {"map", "starmap", "doublestarmap"}
 
-NewT(pos) == [r |-> -2, j |-> -1, began |-> FALSE, fin |-> "no", ccb |-> "no", ecb |-> "no",
-              owed |-> FALSE, everOwed |-> FALSE, late |-> FALSE, failed |-> FALSE, grp |-> "", settled |-> FALSE, cpos |-> pos]
+NoGrp == "<no group>"      \* "the group is not known (yet)" - any string, the empty one included, is a legal group name
 
-NoReq == [acc |-> FALSE, kind |-> "none", num |-> 0, nc |-> 1, gname |-> "", exp |-> <<>>, calls |-> 0,
+NewT(pos) == [r |-> -2, j |-> -1, began |-> FALSE, fin |-> "no", ccb |-> "no", ecb |-> "no",
+              owed |-> FALSE, everOwed |-> FALSE, late |-> FALSE, failed |-> FALSE, grp |-> NoGrp, settled |-> FALSE, cpos |-> pos]
+
+NoReq == [acc |-> FALSE, kind |-> "none", num |-> 0, nc |-> 1, gname |-> NoGrp, exp |-> <<>>, calls |-> 0,
           raised |-> 0, pulls |-> 0, stopSeen |-> FALSE, cancelled |-> FALSE, kfE |-> FALSE,
           ecb |-> "none", ccb |-> "none", begunJ |-> {}, pos |-> 0, liveAt |-> 0]
 
@@ -113,14 +115,14 @@ GroupObs(g, e) ==
       v2 == UNION {Chk("C10.exact", -1, ids(i) \subseteq g.C) : i \in okI}
       v3 == UNION {Chk("C10.disjoint", -1, i = k \/ ids(i) \cap ids(k) = {}) : i \in okI, k \in okI}
       (* membership never moves and never shrinks while the group lives *)
-      v4 == UNION {IF id \in ids(i) THEN Chk("C10.exact", id, g.T[id].grp = "" \/ g.T[id].grp = G[i].g) ELSE {}
+      v4 == UNION {IF id \in ids(i) THEN Chk("C10.exact", id, g.T[id].grp = NoGrp \/ g.T[id].grp = G[i].g) ELSE {}
                    : id \in g.C, i \in okI}
       v5 == UNION {Chk("C10.exact", id, g.T[id].grp = G[i].g => id \in ids(i)) : id \in g.C, i \in okI}
       grpOf(id) == LET S == {i \in okI : id \in ids(i)} IN
                    IF S = {} THEN g.T[id].grp ELSE G[CHOOSE i \in S : TRUE].g
-      T2 == [id \in DOMAIN g.T |-> [g.T[id] EXCEPT !.grp = IF @ = "" THEN grpOf(id) ELSE @]]
+      T2 == [id \in DOMAIN g.T |-> [g.T[id] EXCEPT !.grp = IF @ = NoGrp THEN grpOf(id) ELSE @]]
       (* every task is in a group from its creation on (unless a group was cancelled meanwhile) *)
-      v6 == UNION {Chk("C10.member", id, T2[id].grp # "" \/ T2[id].cpos <= g.gfPos \/ T2[id].cpos = g.pos)
+      v6 == UNION {Chk("C10.member", id, T2[id].grp # NoGrp \/ T2[id].cpos <= g.gfPos \/ T2[id].cpos = g.pos)
                    : id \in g.C}
   IN Out([g EXCEPT !.T = T2, !.Gobs = G], v1 \cup v2 \cup v3 \cup v4 \cup v5 \cup v6,
          Hit("C10.exact", okI # {}) \cup Hit("C10.disjoint", Card(okI) > 1))
@@ -176,8 +178,8 @@ OnBegin(g, e) ==
              \cup Chk("C09.noeffect", e.id, q.acc)
              \cup (IF q.kind = "simple" THEN {} ELSE Chk("C04.tasks", e.id, e.j \notin q.begunJ /\ e.j < q.calls))
              \cup Chk("C11.name", e.id, e.tn = g.ps \o "_Task-" \o ToString(e.id))
-             \cup Chk("C10.member", e.id, e.grps = <<gexp>> /\ (t.grp = "" \/ t.grp = gexp))
-      t2  == [t EXCEPT !.began = TRUE, !.r = e.r, !.j = e.j, !.grp = IF @ = "" /\ Len(e.grps) = 1 THEN e.grps[1] ELSE @]
+             \cup Chk("C10.member", e.id, e.grps = <<gexp>> /\ (t.grp = NoGrp \/ t.grp = gexp))
+      t2  == [t EXCEPT !.began = TRUE, !.r = e.r, !.j = e.j, !.grp = IF @ = NoGrp /\ Len(e.grps) = 1 THEN e.grps[1] ELSE @]
       g2  == [g EXCEPT !.T = Upd(g.T, e.id, t2), !.C = @ \cup {e.id},
                        !.R = Upd(g.R, e.r, [q EXCEPT !.begunJ = @ \cup {e.j}])]
       live2 == Card(Live(g2))
@@ -277,7 +279,7 @@ OnSpawn(g, e) ==
                              ELSE IF e.kind = "start" THEN e.pre = "start-group-" /\ e.idx >= 0
                              ELSE e.pre = e.kind \o "-" \o e.fn \o "-group-" /\ e.idx >= 0)
                   ELSE {})
-      q  == [NoReq EXCEPT !.acc = okRes, !.kind = e.kind, !.num = e.num, !.nc = e.nc, !.gname = e.ret,
+      q  == [NoReq EXCEPT !.acc = okRes, !.kind = e.kind, !.num = e.num, !.nc = e.nc, !.gname = IF okRes THEN e.ret ELSE NoGrp,
                           !.exp = e.exp, !.ecb = e.ecb, !.ccb = e.ccb, !.pos = g.pos, !.liveAt = Card(Live(g))]
       R2 == IF e.kind = "start" /\ okRes
             THEN Upd(Upd(g.R, e.r, q), -1, [ReqOf(g, -1) EXCEPT !.num = @ + e.num])
@@ -502,7 +504,7 @@ OnFinal(g, e) ==
       vReq == UNION {
         LET q == g.R[r]
             mine == {id \in g.C : g.T[id].r = r}
-            neverBegun == {id \in g.C : ~g.T[id].began /\ g.T[id].grp = q.gname /\ q.gname # ""}
+            neverBegun == {id \in g.C : ~g.T[id].began /\ g.T[id].grp = q.gname /\ q.gname # NoGrp}
         IN IF q.cancelled \/ ~canProgress \/ g.closed THEN {}
            ELSE IF q.kind = "start"
            THEN (IF g.R[-1].raised = 0
@@ -516,7 +518,7 @@ OnFinal(g, e) ==
         : r \in reqs}
       vSimple == IF g.cls = "SimpleTaskPool" /\ canProgress /\ ~g.closed
                  THEN ChkK("C04.count", -1,
-                           g.R[-1].calls - g.R[-1].raised = Card({id \in g.C : g.T[id].grp # ""})
+                           g.R[-1].calls - g.R[-1].raised = Card({id \in g.C : g.T[id].grp # NoGrp})
                            \/ (\E r \in reqs : g.R[r].cancelled),
                            IF g.R[-1].kfE THEN "KF-E" ELSE "")
                  ELSE {}
